@@ -829,6 +829,9 @@ def _violated(case):
         elif t == "cat":
             if case.get("cat_part_name") is not None:
                 out.add("cat-part-name")
+            if len({frozenset(n for n, _ in leaves[l]["axes"]) for l in e[2]}) > 1:
+                # parts with different inputs: Cat broadcasts the smaller ones, adjoint_cat does not expand
+                out.add("cat-ragged")
     bound = [v for e in subterms(root) if e[0] in ("sum", "prod") for v in e[1]]
     rebound = {v for v in bound if bound.count(v) > 1}
     if case.get("opt") and rebound:
@@ -1225,6 +1228,10 @@ FINDINGS = {
     "plate-zero": ("KF-adjoint-plate-zero",
                    "adjoint_reduce plate branch: adjoint of a product-reduced plate is 0 instead of the product of "
                    "the other entries where the entry itself is 0 (safediv turns 0/0 into 0)"),
+    "cat-ragged": ("KF-adjoint-cat-ragged-parts",
+                   "adjoint_cat hands every part (a slice of) out_adj unchanged; a part that lacks an input of another "
+                   "part is broadcast over it by Cat, and that input's multiplicity is lost: Cat('d',(x(d), z(d,b))) "
+                   ".reduce(add): adjoint of x is 1, the derivative is |b|"),
     "scatter-number-shortcut": ("KF-adjoint-scatter-number-shortcut",
                                 "tensor.eager_scatter_number returns the source for any injective all-Variable substitution, "
                                 "also when the renamed-to variable is not in reduced_vars (it survives as an axis of the "
@@ -1276,6 +1283,22 @@ def dedicated(ctx, stream, n):
     for _ in range(n):
         if stream == "tape-key-collision":
             cases.append(gen_collision(ctx.rng))
+            continue
+        if stream == "cat-ragged":
+            v_, b_ = ctx.rng.sample(range(NGLOB), 2)
+            n1, n2, nb = ctx.rng.choice([1, 2]), ctx.rng.choice([1, 2]), ctx.rng.choice([2, 3])
+            sz_ = {v: 1 for v in range(NGLOB)}
+            sz_[v_] = n1 + n2
+            sz_[b_] = nb
+            lv = {0: dict(axes=[(v_, n1)], data=gen_data(ctx.rng, (n1,))),
+                  1: dict(axes=[(v_, n2), (b_, nb)], data=gen_data(ctx.rng, (n2, nb))),
+                  2: dict(axes=[(v_, n1 + n2)], data=gen_data(ctx.rng, (n1 + n2,)))}
+            parts = ctx.rng.choice([[0, 1], [1, 0]])
+            body = ("cat", v_, parts) if ctx.rng.random() < 0.5 else ("mul", ("cat", v_, parts), ("acc", 2, []))
+            if body[0] == "cat":
+                del lv[2]
+            cases.append(dict(sz=sz_, leaves=lv, expr=("sum", sorted([v_, b_]), body),
+                              sr=ctx.rng.choice(["add-mul", "logaddexp-add"]), opt=None))
             continue
         if stream == "scatter-number-shortcut":
             n_ = ctx.rng.choice([2, 3])
@@ -1537,6 +1560,62 @@ def roundtrip_stream(ctx, n):
     return found
 
 
+def nested_cases(rng):
+    """Nested reductions that reuse the same variable name at 2-3 levels (an inner binder named like an
+    outer one that is still free in between), in both semirings, plain and through apply_optimizer — the
+    optimizer hoists inner binders, and the tape's un-mangling must then refuse or get it right."""
+    a, b = 0, 1
+    out = []
+    for sr in ("add-mul", "logaddexp-add"):
+        for opt in (None, "tape", "lazy"):
+            for _ in range(2):
+                na, nb = rng.choice([2, 2, 3]), rng.choice([1, 2, 3])
+                sz = {0: na, 1: nb, 2: 1, 3: 1}
+                ab, ba, ja, jb = [(a, na), (b, nb)], [(b, nb), (a, na)], [(a, na)], [(b, nb)]
+
+                def mk(expr, axes):
+                    leaves = {lid: dict(axes=ax, data=gen_data(rng, tuple(s_ for _, s_ in ax), nonzero=True))
+                              for lid, ax in axes.items()}
+                    return dict(sz=dict(sz), leaves=leaves, expr=expr, sr=sr, opt=opt)
+
+                L = lambda i: ("acc", i, [])
+                # sum_{a,b} x(a,b) * [sum_a y(a,b) z(a)]
+                out.append(mk(("sum", [a, b], ("mul", L(0), ("sum", [a], ("mul", L(1), L(2))))),
+                              {0: ab, 1: rng.choice([ab, ba]), 2: ja}))
+                # the same with the inner binder b
+                out.append(mk(("sum", [a, b], ("mul", L(0), ("sum", [b], ("mul", L(1), L(2))))),
+                              {0: ab, 1: ab, 2: jb}))
+                # three levels over a
+                out.append(mk(("sum", [a, b], ("mul", L(0), ("sum", [a], ("mul", L(1),
+                               ("sum", [a], ("mul", L(2), L(3))))))), {0: ab, 1: ab, 2: ba, 3: ja}))
+                # nested, outer reduce in two steps, factors on both sides
+                out.append(mk(("sum", [b], ("sum", [a], ("mul", ("mul", L(0), L(3)),
+                               ("sum", [a], ("mul", L(1), L(2)))))), {0: ab, 1: ab, 2: ja, 3: ja}))
+                # the inner reduction inside a ⊕
+                out.append(mk(("sum", [a, b], ("mul", L(0), ("add", ("sum", [a], ("mul", L(1), L(2))), L(3)))),
+                              {0: ab, 1: ab, 2: ja, 3: jb}))
+                # inner reduction over both names
+                out.append(mk(("sum", [a, b], ("mul", L(0), ("sum", [a, b], ("mul", L(1), L(2))))),
+                              {0: ab, 1: ab, 2: ba}))
+                # a root that keeps b free
+                out.append(mk(("sum", [a], ("mul", L(0), ("sum", [a], ("mul", L(1), L(2))))),
+                              {0: ab, 1: ab, 2: ja}))
+    return out
+
+
+def nested_block(ctx):
+    have_driver = ctx.driver.available()
+    for c in nested_cases(ctx.rng):
+        v = violated(c)
+        if v:
+            ctx.count("nested:skipped-" + ",".join(sorted(v)))
+            continue
+        count_shape(ctx, c, "nested")
+        res = check_case(ctx, c, use_driver=have_driver, label="nested")
+        ctx.count(f"nested:{res['status']}")
+        ctx.case(nontrivial_key=shape_key(c) if res["status"] in ("ok", "beyond") else None)
+
+
 def correspond(ctx):
     ctx.rule = ("random sum-product expressions: 1-5 leaf occurrences (leaves may repeat) over 4 variables of sizes 1-3, "
                 "leaves read directly or through Subs (renaming / Slice / Number / injective index Tensor, private or "
@@ -1549,6 +1628,7 @@ def correspond(ctx):
                 "/repo (⊕ of differently-shaped operands, extra root inputs at a Subs node, Cat with part_name != "
                 "name, the same renaming under two binders, bound names clashing with root inputs / rebinding under "
                 "the optimizer — the last two now decline) are part of the clean stream. "
+                "A nested-binder block reuses one variable name at 2-3 nesting levels (plain and through the optimizer). "
                 "Cat parts are drawn WITH repetition (the same Tensor twice, adjacent or not, sizes 1-3) and may also "
                 "occur elsewhere in the term (second Cat, or through Subs); an aliasing block builds every "
                 "same-object-twice shape (x⊗x, x⊕x, shared Binary/Reduce/Subs node under two parents, Cat(x,x), "
@@ -1559,6 +1639,7 @@ def correspond(ctx):
     exhaustive_small(ctx)
     for _ in range(1 if ctx.tier == "quick" else 6):
         aliasing_block(ctx)
+        nested_block(ctx)
     n = 700 if ctx.tier == "quick" else 12000
     for it in range(n):
         if "tape-key-collision" in FOLDED and it % 25 == 0:
